@@ -21,7 +21,7 @@ func regScenario(name string, f func() *Scenario) {
 func scenarioByName(n string) *Scenario {
 	f, ok := scenarios[n]
 	if !ok {
-		return nil
+		return injectVariant(n)
 	}
 	return f()
 }
@@ -644,6 +644,9 @@ func init() {
 	regScenario("write3-slowfsm", slow("write3"))
 	regScenario("crash3-slowfsm", slow("crash3"))
 	regScenario("transfer-slowfsm", slow("transfer"))
+	// a batching FSM that is slow: whatever a batch's futures are told before ApplyBatch ran is visible to the callers
+	regScenario("batch-mix-slowfsm", slow("batch-mix"))
+	regScenario("batch-lag-slowfsm", slow("batch-lag"))
 }
 
 func init() {
